@@ -431,7 +431,12 @@ func (i *Inst) RunRelay(r *RlScript, tw *TraceWriter, rng *rand.Rand) error {
 			}
 			mark := i.P.Mark()
 			if err := t.SendRaw(raw); err != nil {
-				return fmt.Errorf("action %d: %w", ai, err)
+				if !i.P.Alive() {
+					return fmt.Errorf("action %d: %w", ai, err)
+				}
+				// the gateway hung up on a well-formed burst: nothing of it reached the host
+				tw.Line(M{"ev": "c2b", "transport": r.Transport, "decl": len(want), "carr": len(want), "got": 0, "prefix": true, "end": true, "hookbytes": 0, "skipped": false, "burst": len(sizes)})
+				return nil
 			}
 			// the loop handles the packets it frames out of that write; wait until it is idle again or gone
 			steps, ended, sawRead := 0, false, false
@@ -457,8 +462,12 @@ func (i *Inst) RunRelay(r *RlScript, tw *TraceWriter, rng *rand.Rand) error {
 					// idle again (after having read this write) although not all packets were handled: the rest was dropped.
 					// A tr.reading that precedes the read of this write belongs to the previous packet.
 					if sawRead && ev.Seq > 0 {
+						// only what the gateway had read BEFORE this idle point counts (the log may already hold later events)
 						got := 0
 						for _, e := range i.P.Since(mark) {
+							if e.Seq >= ev.Seq {
+								break
+							}
 							if e.Cid == t.Cid && e.Pt == "tr.read" && e.Int(0) > 0 {
 								got += e.Int(0)
 							}
@@ -482,7 +491,14 @@ func (i *Inst) RunRelay(r *RlScript, tw *TraceWriter, rng *rand.Rand) error {
 			got := all[hostPos:]
 			hostPos = len(all)
 			pre := len(got) <= len(want) && bytes.Equal(got, want[:len(got)])
-			tw.Line(M{"ev": "c2b", "transport": r.Transport, "decl": len(want), "carr": len(want), "got": len(got), "prefix": pre, "end": ended, "hookbytes": fwd, "skipped": false, "burst": len(sizes)})
+			nread := 0
+			for _, e := range i.P.Since(mark) {
+				if e.Cid == t.Cid && e.Pt == "tr.read" && e.Int(0) > 0 {
+					nread += e.Int(0)
+				}
+			}
+			tw.Line(M{"ev": "c2b", "transport": r.Transport, "decl": len(want), "carr": len(want), "got": len(got), "prefix": pre, "end": ended, "hookbytes": fwd, "skipped": false, "burst": len(sizes),
+				"dbgSteps": steps, "dbgRead": nread, "dbgRaw": len(raw)})
 		case "bstall":
 			// the host streams n bytes while the client does not read for ms milliseconds (the gateway's writes to the
 			// client block on full socket buffers) and then reads everything: the stream must be the host's, exactly
